@@ -147,3 +147,25 @@ V("c14-rect-widths-swapped", "C14", "violation", "C14.R4", edits=[(FV, "azimuth_
 V("c14-n-az-mask-demorgan", "C14", "pass", edits=[(SB, "        if self.az_mask[0] > self.az_mask[1] and (\n            azimuth >= self.az_mask[0] or azimuth <= self.az_mask[1]\n        ):", "        if self.az_mask[0] > self.az_mask[1] and not (\n            azimuth < self.az_mask[0] and azimuth > self.az_mask[1]\n        ):")])
 V("c14-n-az-branches-reordered", "C14", "pass", edits=[(SB, "        if self.az_mask[0] <= self.az_mask[1] and self.az_mask[0] <= azimuth <= self.az_mask[1]:\n            return True, Explanation.VISIBLE\n\n", ""), (SB, "        # Default: target satellite is not in view\n", "        if self.az_mask[0] <= self.az_mask[1] and self.az_mask[0] <= azimuth <= self.az_mask[1]:\n            return True, Explanation.VISIBLE\n\n        # Default: target satellite is not in view\n")])
 V("c14-n-el-mask-positive-form", "C14", "pass", edits=[(SB, "if elevation < self.el_mask[0] or elevation > self.el_mask[1]:", "if not (self.el_mask[0] <= elevation <= self.el_mask[1]):")])
+
+# ------------------------------------------------------------------------------------ C02
+OP = "sensors/optical.py"
+RA = "sensors/radar.py"
+V("c02-revert-F10-background-not-slew-gated", "C02", "violation", "C02.R1", revert="a1166c1")
+V("c02-los-check-deleted", "C02", "violation", "C02.R2", edits=[(SB, "        if not lineOfSight(tgt_eci_state[:3], self.host.eci_state[:3]):\n            return False, Explanation.LINE_OF_SIGHT\n", "")])
+V("c02-max-range-comparator-flipped", "C02", "violation", None, edits=[(SB, "getRange(slant_range_sez) > self.maximum_range:", "getRange(slant_range_sez) < self.maximum_range:")])
+V("c02-min-range-boundary-moved", "C02", "violation", "C02.R4", edits=[(SB, "getRange(slant_range_sez) < self.minimum_range:", "getRange(slant_range_sez) <= self.minimum_range:")])
+V("c02-reasons-swapped", "C02", "violation", "C02.R3", edits=[(SB, "            return False, Explanation.MINIMUM_RANGE\n", "            return False, Explanation.MAXIMUM_RANGE\n"), (SB, "            return False, Explanation.MAXIMUM_RANGE\n\n        # Early exit if a Line", "            return False, Explanation.MINIMUM_RANGE\n\n        # Early exit if a Line")])
+V("c02-limb-polarity-inverted", "C02", "violation", None, edits=[(OP, "            if target_is_obscured:\n", "            if not target_is_obscured:\n")])
+V("c02-vismag-comparator", "C02", "violation", None, edits=[(OP, "if rso_apparent_vismag > self.detectable_vismag:", "if rso_apparent_vismag < self.detectable_vismag:")])
+V("c02-radar-sensitivity-dropped", "C02", "violation", "C02.R2", edits=[(RA, "        if getRange(slant_range_sez) > self.maximumRangeTo(viz_cross_section):\n            return False, Explanation.RADAR_SENSITIVITY\n", "")])
+V("c02-optical-ignores-base-check", "C02", "violation", "C02.R2", edits=[(OP, "        if not line_of_sight:\n            return False, explanation\n\n        if tgt_solar_flux <= 0:", "        if tgt_solar_flux <= 0:")])
+V("c02-miss-appended-twice", "C02", "violation", "C02.R5", edits=[(SB, "            else:\n                missed_observation_list.append(observation)\n", "            else:\n                missed_observation_list.append(observation)\n            if observation.reason != Explanation.VISIBLE:\n                missed_observation_list.append(observation)\n")])
+V("c02-fov-check-after-visibility-dropped", "C02", "violation", "C02.R1", edits=[(SB, "        if not self.field_of_view.inFieldOfView(pointing_sez, slant_range_sez):", "        if False and not self.field_of_view.inFieldOfView(pointing_sez, slant_range_sez):")])
+V("c02-values-before-del", "C02", "violation", "C02.R6", edits=[(TE, "    primary_tgt_handle = submission.target_handles[estimate_agent.simulation_id]\n    del submission.target_handles[estimate_agent.simulation_id]\n\n    primary_tgt = ray.get(primary_tgt_handle)\n    background_targets = ray.get(list(submission.target_handles.values()))\n", "    primary_tgt_handle = submission.target_handles[estimate_agent.simulation_id]\n    background_targets = ray.get(list(submission.target_handles.values()))\n    del submission.target_handles[estimate_agent.simulation_id]\n\n    primary_tgt = ray.get(primary_tgt_handle)\n")])
+V("c02-measure-unbiased-state", "C02", "violation", "C02.R7", edits=[(SB, "            tgt_eci_state=tgt_eci_state,\n            sensor_id=self.host.simulation_id,", "            tgt_eci_state=target_agent.eci_state,\n            sensor_id=self.host.simulation_id,")])
+V("c02-prediction-noisy", "C02", "violation", "C02.R7", edits=[("tasking/predictions.py", "        noisy=False,  # Don't add noise for prospective observations", "        noisy=True,")])
+V("c02-ground-platform-branch-swapped", "C02", "violation", None, edits=[(OP, "if self.host.agent_type == PlatformLabel.SPACECRAFT:", "if self.host.agent_type != PlatformLabel.SPACECRAFT:")])
+V("c02-n-reorder-range-checks", "C02", "pass", edits=[(SB, "        # Early exit if target not in sensor's minimum range\n        if self.minimum_range is not None and getRange(slant_range_sez) < self.minimum_range:\n            return False, Explanation.MINIMUM_RANGE\n\n", ""), (SB, "        # Early exit if a Line of Sight doesn't exist\n", "        if self.minimum_range is not None and getRange(slant_range_sez) < self.minimum_range:\n            return False, Explanation.MINIMUM_RANGE\n\n        # Early exit if a Line of Sight doesn't exist\n")])
+V("c02-n-swapped-sides", "C02", "pass", edits=[(SB, "getRange(slant_range_sez) > self.maximum_range:", "self.maximum_range < getRange(slant_range_sez):")])
+V("c02-n-range-local", "C02", "pass", edits=[(SB, "        # Early exit if target not in sensor's minimum range\n        if self.minimum_range is not None and getRange(slant_range_sez) < self.minimum_range:", "        rng = getRange(slant_range_sez)\n        if self.minimum_range is not None and rng < self.minimum_range:")])
